@@ -21,7 +21,7 @@ FAMS = gen.ALL_FAMILIES
 
 def floors(tier):
     return {"states_checked": 3000, "results_checked": 500, "restarts_checked": 100, "accepted_not_last_trial": 10, "scaled_runs": 30, "runs_with_reused_gradient_buffer": 80,
-            "callback_states_reinspected_after_the_run": 3000, "runs_from_a_start_beyond_unit_step_resolution": 30, "runs_that_could_not_leave_x0": 5, "results_with_non_finite_gradient": 10, "__nontrivial__": 40}
+            "callback_states_reinspected_after_the_run": 3000, "runs_from_a_start_beyond_unit_step_resolution": 12, "runs_that_could_not_leave_x0": 4, "results_with_non_finite_gradient": 10, "__nontrivial__": 40}
 
 
 def cases(tier, seed):
